@@ -124,6 +124,51 @@ CHECKS['C14'] = dict(
         'Coq kernel; translator; extraction; gcc.',
    technique='Coq proof (ledger invariant by Permutation/multiset counting over every handler, induction over histories), differential correspondence, implementation-level multiset oracle',
    design='4/C14')
+CHECKS['C09'] = dict(
+   text='Coq theorems for all seven record types, every downstream codec letter, every well-formed question name and every payload of >= 2 bytes: '
+        'what the client extracts from the answer write_dns builds is always a prefix of the payload with the question id/type/first name byte '
+        'echoed (C09_prefix); it is the whole payload exactly when the length is within a proved capacity table (NULL/PRIVATE 4096; TXT '
+        '2559/3071/3071/3583/4095; CNAME/A 153/183/183/214/153; MX/SRV >= 4096), tight for the single-record types; exactness is monotone '
+        '(a shorter payload is delivered whenever a longer one is); the server always sends; the datagram size is a closed form and monotone in the '
+        'payload (used by C11/C15). Tied to write_dns/dns_encode/read_dns_withq/dns_namedec by a two-phase run: every length on the real code with '
+        'an oracle, then the model on the boundary subset.',
+   note='Trusts: MX/SRV with a 4096-byte client buffer and payloads 2296..4096 (truncating case) is covered by the run, not by a theorem; payloads above 4096 '
+        'outside the quantifier; Coq kernel; translator; extraction; gcc.',
+   technique='Coq proof (encode/decode round trip per record type, tiling of TXT strings and host-name labels, capacity arithmetic), differential correspondence + implementation oracle',
+   design='4/C09')
+CHECKS['C12'] = dict(
+   text='Coq theorems for every datagram dat and ANY two residues res1, res2 behind it in the receive buffer: readname, readtxtbin, readshort/readlong, '
+        'dns_decode of queries and of answers (every type branch), client_extract, dns_get_id, the raw-frame views and the whole server step and client '
+        'tunnel step give identical results on dat++res1 and dat++res2, equal to the step on dat alone; every byte of a decoded query name is a byte of the '
+        'datagram or a dot; the echoed question of every answer is residue-independent. Tied to the C by runs that decode each datagram over several different '
+        'residues (including the real tail of a longer predecessor) and by server/client histories with short-after-long datagrams; ASan at the thorough tier.',
+   note='Trusts: the buffer abstraction (a C read at index i is rb buf i; reads past the buffer end are observed by ASan only); the client step theorem '
+        'rests on a copy of the body of Client.tunnel_dns tied by a reflexivity lemma; Coq kernel; translator; extraction; gcc.',
+   technique='Coq proof (congruence of every decoder under agreement on the datagram prefix, lifted to the server and client steps), differential correspondence over varied residues',
+   design='4/C12')
+CHECKS['C06'] = dict(
+   text='Coq theorems for all inputs about the client-side decoders and the client tunnel model: every write stays within its destination (decoded answers, '
+        'readname, readtxtbin, the 250x256 MX name array and its output loop, dns_namedec including its trailing NUL), fuel adequacy / termination of every '
+        'loop with explicit work bounds, the reassembly buffer and counters stay in range over arbitrary event histories (given zlib output fits its buffer), and '
+        'a reply that matches none of the recent queries leaves the tunnel state unchanged and writes nothing to tun. Tied to the C by decoder, tunnel-history '
+        'and scripted-handshake runs, all under ASan/UBSan; the handshake functions have no model and are covered by the sanitizer runs only.',
+   note='Trusts: ASan/UBSan as the memory-safety observer for code without a model (handshake functions, tun_setip, libc, zlib); per-datagram work bound is '
+        'prose over formal pieces; Coq kernel; translator; extraction; gcc/clang runtime.',
+   technique='Coq proof (bounds invariants of the decoder models, fuel adequacy, state invariant by induction over events), differential correspondence, sanitizer runs',
+   design='4/C05-C06')
+CHECKS['C11'] = dict(
+   text='Coq theorems over the relay family (case keep/lower/upper/random x 8-bit clean/strip/reject x punctuation keep/mangle +/mangle _, on either side, size '
+        'limits, EDNS0, record-type sets): the test patterns cover every alphabet character a deterministic relay can alter (by reflection over the 27 members), '
+        'so the upstream codec selected survives the query side for every payload (via the C07 round trip); the downstream codec selected delivers every payload '
+        'except Raw over TXT with "+" mangling (refuted with witness = known finding); Base32 survives all 36 members; the fragment-size binary search returns a size '
+        'whose answers pass the limit (given C09 size monotonicity); every autodetect falls back to Base32/least type rather than failing. Decision logic, pattern '
+        'strings, orders and probe constants are re-read from the source; the model predicts (rv, type, codecs, EDNS0, fragsize) of the REAL client_handshake run '
+        'through a relay harness, and an oracle sends packets over the negotiated settings.',
+   note='Trusts: the relay semantics of harness/h_handshake.c as the reading of the family; retry/time-out sequencing, lazy and raw sub-handshakes validated by '
+        'runs only; random-case downstream half assumes the alteration was visible in the replies; three known findings (all forced options or the protocol constant); '
+        'Coq kernel; translator; extraction; gcc.',
+   technique='Coq proof (reflection over the finite relay family for coverage, lifted to all payloads by the codec round trip; binary-search invariant), differential correspondence against the real handshake through a relay, delivery oracle',
+   design='4/C11')
 NOT_YET = {}
 
 def main():
